@@ -82,7 +82,9 @@ type URIParamsLst struct {
 
 // Reset re-initializes the parsed parameter list
 func (l *URIParamsLst) Reset() {
-	for i := 0; i < l.PNo(); i++ {
+	// reset all the params, not only the first PNo(): Params[N] might contain
+	// a partially parsed param (parsing abandoned while waiting for more bytes)
+	for i := 0; i < len(l.Params); i++ {
 		l.Params[i].Reset()
 	}
 	t := l.Params
